@@ -17,6 +17,7 @@ import random
 
 from .. import vloop, ncpsim, ncpmodel, appharness
 from ..runner import Acc
+from .. import logmode
 from ..contracts import install_status_contract
 
 PROPERTY = "C17"
@@ -43,7 +44,8 @@ REACH = {t: ["event_before_response", "event_after_timeout", "cancel_before_resp
              "refused", "returned", "timeout_waiting_event", "command_timeout", "scan_completion_before_response",
              "scan_results_in_order", "scan_pre_issue_result_excluded", "repeated_operation", "op_form", "op_leave",
              "op_bringup", "op_scan", "leak_probe_done", "completed_on_a_repeated_status_value", "op_overlap",
-             "overlapping_registrations_checked", "non_lifo_lifetimes"] for t in ("quick", "thorough")}
+             "overlapping_registrations_checked", "non_lifo_lifetimes", "op_status_overlap", "several_listeners_for_one_status_event",
+             "status_overlap_one_cancelled"] for t in ("quick", "thorough")}
 SHARD_TIMEOUT = {"quick": 900, "thorough": 3600}
 
 
@@ -107,6 +109,7 @@ def shards(tier, seed):
         for op in ("form", "leave", "bringup", "scan"):
             out.append({"version": v, "op": op, "tier": tier, "seed": seed})
         out.append({"version": v, "op": "overlap", "tier": tier, "seed": seed})
+        out.append({"version": v, "op": "status_overlap", "tier": tier, "seed": seed})
         for op in ("form", "leave", "bringup"):
             # "quiet" runs: nothing but the operations' own completing events is ever delivered (no
             # probe events, no non-matching statuses), so consecutive operations on one EZSP see the
@@ -128,6 +131,8 @@ def run_shard(desc) -> Acc:
     V, op = desc["version"], desc["op"]
     if op == "overlap":
         return run_overlap(desc)
+    if op == "status_overlap":
+        return run_status_overlap(desc)
     CMD_T = float(pm.EZSP_CMD_TIMEOUT)
     OPS_T = float(e.NETWORK_OPS_TIMEOUT)
     UP_T = float(A.NETWORK_UP_TIMEOUT_S)
@@ -409,6 +414,126 @@ def run_shard(desc) -> Acc:
         pass
     finally:
         lg.removeHandler(elog)
+    return acc
+
+
+def run_status_overlap(desc) -> Acc:
+    """Several operations waiting for a stack status at the same time on one EZSP (two formNetwork calls, a
+    formNetwork next to the application's bring-up wait, two leaveNetwork calls, mixed): every one of them
+    completes at the first matching status event delivered after its command succeeded, an operation whose
+    status never comes ends with its timeout, a cancelled one does not disturb the others, and no listener
+    stays registered."""
+    import bellows.ezsp as e
+    import bellows.types as t
+
+    logmode.apply(desc)
+    acc = Acc()
+    install_status_contract(acc)
+    V = desc["version"]
+    OPS_T = float(e.NETWORK_OPS_TIMEOUT)
+    acc.hit("op_status_overlap")
+    kinds = ["form", "leave", "up", "down"]
+    actor_sets = [list(c) for n in (2, 3) for c in itertools.combinations_with_replacement(kinds, n)]
+    ev_lists = [list(p) for n in (1, 2, 3) for p in itertools.product("UD", repeat=n)]
+    rnd = random.Random(desc["seed"] * 7 + V)
+    if desc["tier"] == "quick":
+        combos = [(a, ev, None) for a in actor_sets for ev in ev_lists if (len(a) + len(ev) + actor_sets.index(a)) % 2 == desc["seed"] % 2]
+    else:
+        combos = [(a, ev, None) for a in actor_sets for ev in ev_lists]
+    combos += [(a, ev, rnd.randrange(len(a))) for a in actor_sets for ev in ev_lists[::3]]
+
+    async def main(loop):
+        clock = loop.time
+        st = await ncpsim.started(loop, V, acc, "C17")
+        ez, ncp = st.ezsp, st.ncp
+        S = lambda c, k: ncpmodel.status(ncp, c, k)  # noqa: E731
+
+        def script(name, args, seq):
+            if name in ("formNetwork", "leaveNetwork"):
+                return [("reply", [S(name, "ok")])]
+            return None
+
+        ncp.script = script
+        params = t.EmberNetworkParameters.deserialize(bytes(40))[0]
+
+        def listeners():
+            return sum(len(v) for v in ez._stack_status_listeners.values()) if hasattr(ez, "_stack_status_listeners") else None
+
+        baseline = listeners()
+        for actors, events, cancel_i in combos:
+            acc.case()
+            case = {"version": V, "op": "status_overlap", "actors": actors, "events": events, "cancelled": cancel_i}
+            out = [dict() for _ in actors]
+            t0 = clock()
+
+            async def actor(i, kind):
+                try:
+                    if kind == "form":
+                        await ez.formNetwork(params)
+                    elif kind == "leave":
+                        await ez.leaveNetwork()
+                    else:
+                        want = t.sl_Status.NETWORK_UP if kind == "up" else t.sl_Status.NETWORK_DOWN
+                        with ez.wait_for_stack_status(want) as fut:
+                            async with asyncio.timeout(OPS_T):
+                                await fut
+                    out[i].update(kind="ret", t=clock())
+                except asyncio.CancelledError:
+                    out[i].update(kind="cancelled", t=clock())
+                    raise
+                except BaseException as ex:  # noqa: BLE001
+                    out[i].update(kind="raise", t=clock(), exc=type(ex).__name__)
+
+            tasks = [asyncio.ensure_future(actor(i, k)) for i, k in enumerate(actors)]
+            await asyncio.sleep(1.0)  # every command has been answered by now
+            if cancel_i is not None:
+                tasks[cancel_i].cancel()
+                await asyncio.sleep(0.01)
+                acc.hit("status_overlap_one_cancelled")
+            tl = []
+            seq = (ncp.requests[-1][3] - 1) % 256 if ncp.requests else 200
+            for ev in events:
+                await asyncio.sleep(0.05)
+                tl.append((ev, clock()))
+                ncp._deliver_now(ncp.encode("stackStatusHandler", [S("stackStatusHandler", "network_up" if ev == "U" else "network_down")], seq, callback=True))
+            await asyncio.sleep(OPS_T + 2.0)
+            for tk in tasks:
+                if not tk.done():
+                    tk.cancel()
+            await asyncio.gather(*tasks, return_exceptions=True)
+            hist = [("actors", actors), ("events", [(e_, round(tt - t0, 3)) for e_, tt in tl]),
+                    ("outcomes", [(o.get("kind"), None if o.get("t") is None else round(o["t"] - t0, 3), o.get("exc")) for o in out])]
+            for i, kind in enumerate(actors):
+                want_ev = "U" if kind in ("form", "up") else "D"
+                m = next((tt for e_, tt in tl if e_ == want_ev), None)
+                if cancel_i == i:
+                    exp = "cancelled"
+                elif m is not None:
+                    exp = "ret"
+                else:
+                    exp = "raise"
+                got = out[i].get("kind")
+                if got != exp:
+                    key = "C17/outcome/completing-event-missed" if exp == "ret" else f"C17/outcome/expected-{exp}-got-{got}"
+                    acc.violation(key, f"{len(actors)} operations {actors} waiting at the same time, status events {events}: operation {i} ({kind}) "
+                                  f"expected {exp}, observed {got} ({out[i].get('exc')})", case, hist)
+                elif exp == "ret" and abs(out[i]["t"] - m) > 1e-6:
+                    acc.violation("C17/outcome/wrong-instant", f"operation {i} ({kind}) completed {out[i]['t'] - m:+.3f}s away from its status event", case, hist)
+                elif exp == "ret":
+                    acc.hit("status_overlap_completed")
+            if sum(1 for k in actors if k in ("form", "up")) >= 2 and "U" in events or sum(1 for k in actors if k in ("leave", "down")) >= 2 and "D" in events:
+                acc.hit("several_listeners_for_one_status_event")
+            await asyncio.sleep(0.05)
+            if listeners() != baseline:
+                acc.violation("C17/leak/listener-or-callback-remains", f"after {actors} / {events}: {listeners()} status listeners, baseline {baseline}", case, hist)
+            acc.nontrivial((V, "status_overlap", tuple(actors), tuple(events), cancel_i))
+            if len(acc.samples) < 1:
+                acc.sample({"case": case, "history": [repr(h) for h in hist]})
+
+    try:
+        vloop.run(main)
+    except ncpsim.BringUpFailed:
+        pass
     return acc
 
 
